@@ -281,6 +281,38 @@ def mon_limits(tr, m1, m2):
     return out
 
 
+def mon_unordered_ids(tr):
+    """C17/C11: a SUBSCRIBE or UNSUBSCRIBE never goes out with an identifier that another request still holds, and the
+    identifiers stay inside their 13-bit spaces (0x6000.. subscribe, 0x4000.. unsubscribe)"""
+    out = []
+    holder = {}        # identifier -> tag of the call that wrote it and has not returned
+    for i, (op, lines) in enumerate(tr):
+        f = op.split()
+        if f and f[0] in ("adopt", "init"):
+            holder = {}
+        for l in lines:
+            p = l.split()
+            if l.startswith("ret "):
+                for k in [k for k, t in holder.items() if t == p[1]]:
+                    del holder[k]
+            elif l.startswith("ev w ") and len(p) > 3 and p[3][:2] in ("82", "a2") and len(p[3]) >= 8:
+                raw = bytes.fromhex(p[3])
+                k = 1
+                while k < len(raw) and raw[k] & 0x80:
+                    k += 1
+                if k + 3 > len(raw):
+                    continue
+                pid = (raw[k + 1] << 8) | raw[k + 2]
+                space = 0x6000 if raw[0] == 0x82 else 0x4000
+                if pid & ~0x1fff != space:
+                    out.append(("unordered:space", "%s with identifier %04x outside its space %04x..%04x" % ("SUBSCRIBE" if raw[0] == 0x82 else "UNSUBSCRIBE", pid, space, space + 0x1fff)))
+                tag = f[1] if f and f[0] == "call" else "?"
+                if pid in holder and holder[pid] != tag:
+                    out.append(("unordered:id-reuse", "identifier %04x written for request %s while request %s still holds it" % (pid, tag, holder[pid])))
+                holder[pid] = tag
+    return out
+
+
 DOC_CLASSES = {
     "pub": {"ok", "closed", "down", "canceled", "deny", "submit"},
     "sub": {"ok", "closed", "down", "max", "canceled", "deny", "suberr", "submit", "break", "abandoned"},
